@@ -160,6 +160,23 @@ class WatchdogTimeout(BaseException):
 def watchdog(seconds: int):
     """Raise WatchdogTimeout in the main thread after `seconds` (pure-Python loops only)."""
 
+    import threading
+
+    if threading.current_thread() is not threading.main_thread():
+        # worker threads (deep-stack checks): raise asynchronously in this thread from a timer
+        import ctypes
+
+        tid = threading.get_ident()
+        timer = threading.Timer(seconds, lambda: ctypes.pythonapi.PyThreadState_SetAsyncExc(
+            ctypes.c_ulong(tid), ctypes.py_object(WatchdogTimeout)))
+        timer.daemon = True
+        timer.start()
+        try:
+            yield
+        finally:
+            timer.cancel()
+        return
+
     def _h(signum, frame):
         raise WatchdogTimeout()
 
